@@ -56,6 +56,8 @@ void sched_begin(const SchedConfig &cfg);
 // Returns the number of threads still blocked (0 for a clean end).
 int sched_end();
 bool sched_active();
+// after fork(), in the child: only the calling thread exists, so scheduling is switched off
+void sched_detach_child();
 
 // Run other threads until none of them is runnable (exact quiescence for a
 // single client: the background thread is parked on its condition variable).
